@@ -9,6 +9,7 @@ import (
 	"context"
 	"errors"
 	"fmt"
+	"math"
 	"sort"
 	"strings"
 	"sync"
@@ -180,6 +181,10 @@ func newAPI(c config, rec *recorder) *apifu.API {
 			s := 0.0
 			for _, x := range ctx.Arguments["xs"].([]interface{}) {
 				s += x.(float64)
+			}
+			if math.IsInf(s, 0) || math.IsNaN(s) {
+				// a non-finite Float does not marshal (HTTP 500 / no data frame): C03's subject, not C17's
+				return nil, errors.New("sum overflows")
 			}
 			return s, nil
 		}),
